@@ -1036,6 +1036,7 @@ def run(chk):   # noqa
     _selfpipe_rule(chk, prog)
     _bucketbound_rule(chk, prog)
     _deinitunpack_rule(chk, prog)
+    _outboxdrain_rule(chk, prog)
     _lockeach_rule(chk, prog)
     _swapshape_rule(chk, prog)
 
@@ -1458,6 +1459,51 @@ def _bucketbound_rule(chk, prog):
                               "so only those that hash into the first few are visited (for janet_vm.threaded_abstracts: a thread that exits "
                               "keeps references on the shared abstracts it skipped, and they are never released)" % (x.loc, bound[0].text()))
     chk.floor(rule, 3, n)
+
+
+def _outboxdrain_rule(chk, prog):
+    """Hand-offs to other threads made while a channel mutex is held are parked in janet_vm.chan_outbox and posted
+    when the last mutex is released.  One locked section can park several (closing a channel wakes every waiter), and
+    nothing else ever posts them: the release must empty the outbox, i.e. pop in a loop that ends only when the pop
+    finds nothing."""
+    rule = "C08-OUTBOXDRAIN"
+    chk.rule(rule, "every pop from janet_vm.chan_outbox is the condition of a loop (the release posts all parked hand-offs, not one)")
+    tu = prog.tus["ev.c"]
+    n = 0
+    pushes = 0
+    for fn in sorted(tu.funcs.values(), key=lambda f: f.name):
+        for c in fn.nodes:
+            if c.k != "call" or c.callee not in ("janet_q_pop", "janet_q_push") or not c.kids:
+                continue
+            args = c.kids[1:] if (c.kids and c.kids[0].k in ("ref", "cast") and c.kids[0].text().endswith(c.callee)) else c.kids
+            if not any(y.k == "mem" and y.field == "chan_outbox" for a in args for y in a.walk()):
+                continue
+            if c.callee == "janet_q_push":
+                pushes += 1
+                continue
+            n += 1
+            chk.instance(rule)
+            chk.analysed(fn)
+            looped = False
+            for l in fn.nodes:
+                if l.k in ("while", "do") and l.kids:
+                    cond = l.kids[0] if l.k == "while" else l.kids[-1]
+                    if cond is not None and any(y is c for y in cond.walk()):
+                        looped = True
+                if l.k == "for" and l.kids[1] is not None and any(y is c for y in l.kids[1].walk()):
+                    looped = True
+            if looped:
+                chk.ok(rule, "%s: the pop at %s is a loop condition" % (fn.name, c.loc))
+            else:
+                chk.violation(rule, "ev.c", fn.name, "pop-once", c.loc,
+                              "%s pops janet_vm.chan_outbox at %s outside a loop condition: a locked section that parked several "
+                              "hand-offs (channel close with several waiting threads) gets one of them posted and the other threads "
+                              "are never woken" % (fn.name, c.loc))
+    if pushes == 0 and n == 0:
+        chk.note("%s: this tree has no chan_outbox (hand-offs are posted directly); nothing to decide" % rule)
+        chk.floor(rule, 0, 0)
+        return
+    chk.floor(rule, 1, n)
 
 
 def _deinitunpack_rule(chk, prog):
